@@ -359,6 +359,10 @@ class Sym:
 
     __hash__ = None
 
+    def __bool__(self):
+        # truth value of a number (`x or default`, `if x:`): x != 0, decided / forked like any other comparison
+        return CTX.decide(self.e != 0)
+
     # no silent concretisation -------------------------------------------
     def __float__(self):
         raise Concretised('symbolic value forced to float')
